@@ -11,7 +11,9 @@ N_CASES = {"quick": 320, "thorough": 12000}  # per shard
 TIME_BUDGET = {"quick": 60, "thorough": 270}
 META = {
     "rule": "closed query ASTs from the shape-directed generator (1-6 stages, depth<=4, three binder-naming schemes, "
-    "function/method/mixed form, called lambdas incl. keywords, tuple/list/dict packing + constant projection); "
+    "function/method/mixed form, called lambdas incl. keywords, tuple/list/dict packing + constant projection, binder names re-used across "
+    "stages, a few hostile selectors) plus two targeted families (1/8 of the cases): inner fusion inside an outer lambda with 1-3 lambdas "
+    "below re-binding names from a 4-name pool, and nested explicitly called lambdas around a fusable pair; ~30 directed traps; "
     "distinct by fields-only dump of the input; non-trivial = the simplifier changed the structure AND the input "
     "evaluated ok on a non-empty dataset (an obligation existed)",
     "assumptions": [
